@@ -2429,6 +2429,26 @@ def expand_table_dispatch(tree):
     return count
 
 
+class _SpreadKeywords(ast.NodeTransformer):
+    """N27.  `f(a, **{"k": v, "l": w})` is `f(a, k=v, l=w)` (a dict display with string-literal keys that are identifiers)."""
+    count = 0
+
+    def visit_Call(self, node):
+        self.generic_visit(node)
+        if any(k.arg is None and isinstance(k.value, ast.Dict) for k in node.keywords):
+            kws, given = [], {k.arg for k in node.keywords if k.arg}
+            for k in node.keywords:
+                if k.arg is None and isinstance(k.value, ast.Dict) and k.value.keys and all(
+                        isinstance(x, ast.Constant) and isinstance(x.value, str) and x.value.isidentifier() and x.value not in given
+                        for x in k.value.keys) and len({x.value for x in k.value.keys}) == len(k.value.keys):
+                    kws.extend(ast.keyword(arg=x.value, value=v) for x, v in zip(k.value.keys, k.value.values))
+                    _SpreadKeywords.count += 1
+                else:
+                    kws.append(k)
+            node.keywords = kws
+        return node
+
+
 def expand_dict_get(fn):
     """N26.  For a local that is bound exactly once, to a dict display / dict comprehension / dict(...) call, `d.get(k)` is
     `d[k] if k in d else None` and `d.get(k, x)` is `d[k] if k in d else x` (k an effect-free expression)."""
@@ -2647,6 +2667,12 @@ def normalise(tree, modname, shape_all=None, keep=frozenset()):
                 total += k
             if total:
                 log["conditionals"][q] = total
+    sk = _SpreadKeywords()
+    _SpreadKeywords.count = 0
+    sk.visit(tree)
+    if _SpreadKeywords.count:
+        log["spread_keywords"] = _SpreadKeywords.count
+        ast.fix_missing_locations(tree)
     # a second round: substitutions above may have turned a call into an inlineable one (`f(*table.values())` with the table
     # a local that has been substituted by now)
     if log["substituted"] or log["inlined"]:
